@@ -61,6 +61,53 @@ def reached_under(node, stop, atom):
     return result
 
 
+def eval_with(test, assume):
+    """three-valued evaluation where `assume(node)` may fix the value of ANY sub-expression (composite ones included)"""
+    v = assume(test)
+    if v is not None:
+        return v
+    if isinstance(test, ast.UnaryOp) and isinstance(test.op, ast.Not):
+        v = eval_with(test.operand, assume)
+        return None if v is None else (not v)
+    if isinstance(test, ast.BoolOp):
+        vals = [eval_with(x, assume) for x in test.values]
+        if isinstance(test.op, ast.And):
+            if any(x is False for x in vals):
+                return False
+            return True if all(x is True for x in vals) else None
+        if any(x is True for x in vals):
+            return True
+        return False if all(x is False for x in vals) else None
+    if isinstance(test, ast.Constant):
+        return bool(test.value)
+    return None
+
+
+def edge_forces(edge, preds):
+    """Does crossing this branch edge imply that at least one of the facts holds?  A fact is a predicate pred(expr, polarity) meaning
+    "expr evaluated to polarity".  Decided semantically: assume every listed fact is false (its expression has the opposite value), leave
+    everything else unknown, and see whether the test is then forced to the other branch.  Independent of how the condition is spelled
+    (not / and / or / De Morgan forms, which branch is the else part)."""
+    if edge.test is None:
+        return False
+
+    if eval_with(edge.test, lambda n: None) is not None:
+        return False       # constant test: the edge is either always or never taken and tells nothing about the facts
+    matched = []
+
+    def assume(node):
+        for pr in preds:
+            if pr(node, True):
+                matched.append(node)
+                return False
+            if pr(node, False):
+                matched.append(node)
+                return True
+        return None
+    v = eval_with(edge.test, assume)
+    return bool(matched) and v is not None and v != edge.polarity
+
+
 def strip_not(test):
     """(core test, polarity) after peeling `not` wrappers"""
     pol = True
